@@ -64,6 +64,7 @@ def write_evidence(mod, tier, seed, merged, extra_cov=None):
     'components': COMPONENTS,
     'known_findings_hit': sorted(set(v['sig'] for v in known)),
     'skipped_groups_wall_budget': merged.get('skipped_groups', 0),
+    'enumerated_placements': merged.get('enumerated', 0),
     'harness_errors': len(merged['harness_errors']),
     'notes': merged['notes'],
   }
